@@ -40,27 +40,30 @@ const host = "h.example"
 // ---- generated trees ------------------------------------------------------------
 
 type tree struct {
-	idx     int
-	caseDir string
-	root    string
-	files   map[string]string   // rel path ("a/b") -> content
-	tokens  map[string]string   // rel path -> token
-	dirs    map[string][]string // rel dir ("" = root) -> entry names, directories with a trailing "/"
-	byBody  map[string]string   // content -> rel path
-	byList  map[string]string   // canonical entry set -> rel dir
-	fileL   []string            // sorted rel paths of files
-	dirL    []string            // sorted rel paths of directories
-	single  string              // rel path of the file served in single-file mode
-	canary  []string            // strings that must never appear in any response
-	aims    []aim               // positions of canaries relative to the root
-	canaryL []string            // for the sample: what was placed outside
-	ntok    int
-	ids     []string          // every id has a file i/<id> and a file o/<id>
-	ioDir   bool              // "io" is a directory (with files) instead of a file
-	cDir    bool              // "c" is a directory (with files) instead of a file
-	noFile  string            // an id without files
-	roots   map[string]string // root kind -> the path given as -serve-files-from
-	rootsL  map[string]string // root kind -> how the path resolves (for samples and witnesses)
+	idx      int
+	caseDir  string
+	root     string
+	files    map[string]string   // rel path ("a/b") -> content
+	tokens   map[string]string   // rel path -> token
+	dirs     map[string][]string // rel dir ("" = root) -> entry names, directories with a trailing "/"
+	byBody   map[string]string   // content -> rel path
+	byList   map[string]string   // canonical entry set -> rel dir
+	fileL    []string            // sorted rel paths of files
+	dirL     []string            // sorted rel paths of directories
+	single   string              // rel path of the file served in single-file mode
+	canary   []string            // strings that must never appear in any response
+	aims     []aim               // positions of canaries relative to the root
+	canaryL  []string            // for the sample: what was placed outside
+	ntok     int
+	ids      []string          // every id has a file i/<id> and a file o/<id>
+	ioDir    bool              // "io" is a directory (with files) instead of a file
+	cDir     bool              // "c" is a directory (with files) instead of a file
+	noFile   string            // an id without files
+	roots    map[string]string // root kind -> the path given as -serve-files-from
+	rootsL   map[string]string // root kind -> how the path resolves (for samples and witnesses)
+	canaryAt map[string]bool   // absolute path of every canary file
+	spAims   []spAim           // canaries outside the root whose NAME is one a request may end in (special.go)
+	nSpecial int
 }
 
 type aim struct {
@@ -170,11 +173,12 @@ func (t *tree) canaryFile(rng *rand.Rand, abs string, nameTok string) {
 		t.canary = append(t.canary, nameTok)
 	}
 	t.canaryL = append(t.canaryL, abs)
+	t.canaryAt[abs] = true
 }
 
 func genTree(r *mon.Run, ti int) *tree {
 	rng := r.Rng("tree", ti)
-	t := &tree{idx: ti, files: map[string]string{}, tokens: map[string]string{}, dirs: map[string][]string{}, byBody: map[string]string{}, byList: map[string]string{}}
+	t := &tree{idx: ti, files: map[string]string{}, tokens: map[string]string{}, dirs: map[string][]string{}, byBody: map[string]string{}, byList: map[string]string{}, canaryAt: map[string]bool{}}
 	t.caseDir = filepath.Join(r.Work, fmt.Sprintf("case%d", ti))
 	t.root = filepath.Join(t.caseDir, "root")
 	t.addDir("")
@@ -276,6 +280,8 @@ func genTree(r *mon.Run, ti int) *tree {
 	t.roots["symlink-chain-to-dir"], t.rootsL["symlink-chain-to-dir"] = makeLinks(xr, links, "cd", t.root, 2+xr.IntN(3))
 	t.roots["symlink-chain-to-file"], t.rootsL["symlink-chain-to-file"] = makeLinks(xr, links, "cf", fileAbs, 2+xr.IntN(3))
 	t.roots["dangling-symlink"], t.rootsL["dangling-symlink"] = makeLinks(xr, links, "dangling", filepath.Join(links, fmt.Sprintf("nowhere-%08x", xr.Uint32())), 1+xr.IntN(2))
+	// canaries named like the things requests end in (drawn last: the tree itself does not depend on them)
+	t.plantSpecials(r, rng)
 	return t
 }
 
@@ -413,6 +419,10 @@ func analyse(method, target string) info {
 	inf := info{}
 	var p string
 	switch {
+	case method == "CONNECT" && !strings.HasPrefix(target, "/"):
+		// read as an authority, whatever it looks like
+		inf.form = "other"
+		return inf
 	case target == "*":
 		inf.form = "star"
 		return inf
@@ -459,6 +469,13 @@ func analyse(method, target string) info {
 		}
 	}
 	inf.cleaned = goCleanPath(eff)
+	if method == "CONNECT" {
+		// the router matches a CONNECT request on the path as written: nothing is cleaned, nothing redirected
+		inf.cleaned = eff
+		if eff == "" {
+			inf.cleaned = "/"
+		}
+	}
 	inf.muxRedir = inf.cleaned != eff
 	if inf.valid {
 		var cs []string
@@ -519,6 +536,10 @@ func (t *tree) expectDir(inf info) (kind, rel string) {
 	}
 	rel = strings.Join(segs, "/")
 	if !slash && len(segs) > 0 && segs[len(segs)-1] == "index.html" {
+		// net/http sends the client to "./"; the file itself would be just as much inside the tree
+		if _, ok := t.files[rel]; ok {
+			return "index", rel
+		}
 		return "redirect", rel
 	}
 	if _, ok := t.files[rel]; ok {
@@ -553,6 +574,7 @@ type tgt struct {
 	mx     bool   // a cell of the shell-endpoint x method matrix
 	body   string // matrix cells: none, cl0 (Content-Length: 0), cl (a body that ends), chunked (a body that stays open)
 	shadow bool   // matrix cells: a file or directory of the same name exists in the tree
+	aimAt  string // special-name targets: the canary outside the root the target was written for
 }
 
 // ---- the shell endpoint x method matrix --------------------------------------------
@@ -710,7 +732,11 @@ var styles = map[string]style{
 	"empty-seg":      {[]string{"..", ".", "..", "%2e%2e"}, []string{"//", "///", "/./", "//", "/.//"}},
 }
 
-func (t *tree) traversal(rng *rand.Rand, st style) string {
+func (t *tree) traversal(rng *rand.Rand, st style) string { return t.traversalTo(rng, st, t.aims) }
+
+// traversalTo writes a path that climbs out of an in-tree (or made-up) prefix
+// in the given style and then names one of the aims.
+func (t *tree) traversalTo(rng *rand.Rand, st style, aims []aim) string {
 	prefix, depth := "", 0
 	switch rng.IntN(5) {
 	case 0:
@@ -725,7 +751,7 @@ func (t *tree) traversal(rng *rand.Rand, st style) string {
 	case 4:
 		prefix, depth = "/nonexistent", 1
 	}
-	a := pick(rng, t.aims)
+	a := pick(rng, aims)
 	ups := depth + a.ups
 	if a.ups < 10 {
 		switch rng.IntN(8) {
@@ -1375,6 +1401,9 @@ func (sv *server) violate(idx int, key, what string, g tgt, hops []hop) {
 	if g.rangeV != "" {
 		w["range"] = g.rangeV
 	}
+	if g.aimAt != "" {
+		w["written_for_the_file_outside_the_root"] = g.aimAt
+	}
 	if sv.mode == "single" {
 		w["single_file"] = sv.t.single
 	}
@@ -1558,6 +1587,8 @@ func (sv *server) judgeHop(idx int, g tgt, hops []hop, first bool) {
 				agree = h.Status == 200
 			case "redirect":
 				agree = h.Status == 301
+			case "index":
+				agree = h.Status == 301 || is2xx && (h.Method == "HEAD" || g.rangeV != "" || t.byBody[string(h.body)] == rel)
 			case "missing":
 				// http.Dir refuses names that are not valid UTF-8, and the kernel refuses over-long ones
 				agree = h.Status == 404 && utf8.ValidString(rel) || h.Status == 500 && (!utf8.ValidString(rel) || len(h.Target) > 255)
@@ -1730,6 +1761,12 @@ func (sv *server) runTarget(idx int, g tgt) bool {
 	cur, method := g.target, g.method
 	for n := 0; ; n++ {
 		inf := analyse(method, cur)
+		if method == "CONNECT" && inf.shell != "" {
+			// CONNECT is not tried on the shell endpoints (see Assumptions): such a hop is made with GET
+			method = "GET"
+			inf = analyse(method, cur)
+			r.Count("connect_hops_on_shell_endpoints_made_with_get", 1)
+		}
 		start := sv.pos
 		var h hop
 		switch {
@@ -1900,6 +1937,9 @@ func runServer(r *mon.Run, si int, t *tree, ki int, per int) {
 		for j := range mx {
 			any = any || r.Want("target", base+mxBase+j)
 		}
+		for j := 0; j < spCount(r, ki); j++ {
+			any = any || r.Want("target", base+spBase+j)
+		}
 		if !any {
 			return
 		}
@@ -1940,6 +1980,10 @@ func runServer(r *mon.Run, si int, t *tree, ki int, per int) {
 			r.Distinct(kind + "|" + strconv.Itoa(t.idx) + "|" + g.method + " " + g.target + " " + g.proto + "|" + g.rangeV)
 		}
 	}
+	// special names: traversal targets whose last segment is a name planted outside the root
+	if !sv.runSpecials(base, ki) {
+		return
+	}
 	// the shell endpoint x method matrix
 	for j, g := range mx {
 		idx := base + mxBase + j
@@ -1957,14 +2001,15 @@ func runServer(r *mon.Run, si int, t *tree, ki int, per int) {
 }
 
 func Run(r *mon.Run) {
-	r.Rule = "generated directory trees (depth <= 3; names with spaces, %, unicode, '..x', 'x..', '...', leading dots, literal '%2e%2e'; every file a unique token) that contain things named like the shell endpoints: c and io (a file in two trees out of three, a directory with index.html and x in the others), directories i/ and o/ each with files x, id, two ids drawn from a pool (spaces, unicode, %41, ?, #, ;) and a random hex id; canaries outside the root (sibling files and directories, a name-prefix sibling, parents, the directory that holds the symbolic links; content tokens, and name tokens that no request ever spells). Eight servers per tree (hsrv.Server in-process on real TLS), one per way of naming -serve-files-from: the directory, one regular file inside it, unset, a symbolic link to the directory, a symbolic link to the file, a chain of 2-4 links (each absolute or relative) to the directory, such a chain to the file, a dangling link (1-2 hops). The first three get the full number of random request lines (the same ones), every link kind a quarter of it (its own). Request lines are written raw (hk.RoundTrip; a sample through real curl --path-as-is): existing and missing clean paths, dot segments plain/%2e/%252e/mixed, ..;/, %2f %5c and backslashes, //, /./, overlong UTF-8, trailing dots, NUL and control bytes, 8 KiB paths, absolute-form, *, authority-form, no leading slash, queries, methods, Range, odd protocol versions, shell-named paths and near misses; 301s are followed by hand (<= 5 hops). On top, every server gets the shell endpoint x method matrix: paths /c, /%63, /io, /io/, /io/x, /i%6f, /i/<id> and /o/<id> for every id with files plus one without (ids percent-encoded in three styles) x methods GET HEAD POST PUT DELETE PATCH OPTIONS TRACE, two made-up tokens from a list (get, PROPFIND, G%54, ...) and one random token x request body none / Content-Length 0 / a body that ends / an open chunked body (all cells on the directory and file servers, one in three elsewhere). Oracle: no response at any hop contains a canary token; a 2xx body when a directory is named (directly or through links) is exactly an in-tree file (or the announced range of one) or a listing whose entries are exactly those of an in-tree directory; when a regular file is named (directly or through links) exactly that file comes back for non-shell targets (or an HTTP-layer rejection for targets that are not clean); unset answers 404; a dangling link yields no file content at all; for every request whose path names /c, /i/{id}, /o/{id}, /io or /io/..., whatever the method: the response carries no file token and the marker window of the request holds no 'File requested' notice (the file handler did not take it), /c returns the script, and the project's own uses (GET /i/{id}; POST or PUT with a body on /o/{id}; POST or PUT with an open body on /io) attach a stream (attach notice; delivered input line counted) - what other methods do on the streaming endpoints is recorded, not demanded; every request that reaches the file handler has a 'File requested' notice inside its marker window, also under link and dangling roots. Two more engines run beside the request-line servers. GONE (6 servers quick / 24 thorough, one per way of naming a directory or a file, operator queue depth 1, 4, 64 or 1024): waves of 10-24 parallel clients that dial first and then, together, write a file request (a clean target carrying a nonce) and leave at once - TLS half-close (close_notify + FIN) and reading the answer, FIN without close_notify, a complete keep-alive exchange followed by a second request and half-close, close_notify + close without reading, RST (SO_LINGER 0), and ordinary clients as control; every second wave with the operator's terminal stalled (hk.StallOperator: the consumer of the operator channel takes nothing, the queue is filled to the brim with filler lines before the requests are written, the clients are gone before it takes lines again). Oracle: every request for which the file handler's own log record ('File requested' with that request URI; it is written after the operator line was queued) is observed has its 'File requested' operator line before the marker sent afterwards. LIVE (6 / 24 servers: a regular file twice, a symbolic link and a chain of links to it, a directory, a link to a directory): the served file is 64 KiB - 4 MiB (log-uniform, unaligned) of 32-byte lines that spell a per-server token, the version and their own offset. Phase 1: 6-12 clients at once (half of them begin with the whole file at the same instant), each 3 / 6 requests over fresh or kept connections: whole file under varied clean non-shell paths, single ranges (1 byte to the whole file, across the 32 KiB copy-chunk border, open-ended, suffix), two-part ranges, HEAD. Phase 2: 5 / 12 times the file is replaced with nothing in flight - temporary file renamed over it, truncated and rewritten in place, deleted and recreated, for link roots the link switched to a new file / a new directory holding it (every method on every server) - and after each replacement a whole-file request on a fresh connection, a request on a connection kept across all replacements and 1-3 requests at once. Phase 3: 4-6 clients keep requesting while the file is replaced 4 / 10 times atomically (rename over it, link switched); clients and replacer are paced by request counts (two rounds granted per replacement, which is made when one has completed). Oracle: with [lo, hi] = [newest replacement complete before the request was written, newest replacement begun after its answer was read], a 200 body is exactly one of the versions lo..hi (outside phase 3 lo = hi: the current file), a 206 body exactly the announced range of one of them, a HEAD answer announces the length of one of them, 416 only for a range that starts past the end of one of them, and in single-file mode nothing else is an answer; in directory mode a 2xx body that is not (a range of) such a version is content that is no file of the tree. A case = (tree, root kind, request); distinct = distinct (root kind, tree, request line, Range / body shape); clean-missing targets are counted as trivial"
+	r.Rule = "generated directory trees (depth <= 3; names with spaces, %, unicode, '..x', 'x..', '...', leading dots, literal '%2e%2e'; every file a unique token) that contain things named like the shell endpoints: c and io (a file in two trees out of three, a directory with index.html and x in the others), directories i/ and o/ each with files x, id, two ids drawn from a pool (spaces, unicode, %41, ?, #, ;) and a random hex id; canaries outside the root (sibling files and directories, a name-prefix sibling, parents, the directory that holds the symbolic links; content tokens, and name tokens that no request ever spells). Eight servers per tree (hsrv.Server in-process on real TLS), one per way of naming -serve-files-from: the directory, one regular file inside it, unset, a symbolic link to the directory, a symbolic link to the file, a chain of 2-4 links (each absolute or relative) to the directory, such a chain to the file, a dangling link (1-2 hops). The first three get the full number of random request lines (the same ones), every link kind a quarter of it (its own). Request lines are written raw (hk.RoundTrip; a sample through real curl --path-as-is): existing and missing clean paths, dot segments plain/%2e/%252e/mixed, ..;/, %2f %5c and backslashes, //, /./, overlong UTF-8, trailing dots, NUL and control bytes, 8 KiB paths, absolute-form, *, authority-form, no leading slash, queries, methods, Range, odd protocol versions, shell-named paths and near misses; 301s are followed by hand (<= 5 hops). SPECIAL NAMES: beside the canaries with made-up names, every tree has canaries outside the root whose NAME is one that the program, net/http or a request's last segment may single out - index.html, index.htm, favicon.ico, robots.txt, .htaccess, the shell endpoint names c, io, x, i/x, o/x, and names equal to in-tree files (the single-mode file, withindex/index.html, sub/f.txt, sub/c, four random files, at the same relative place) - in the parent of the root, in sibling directories (secret/, rootx/), in the directory that holds the symbolic links (one lexical step up from a root named through a link) and above all case directories (shared by the trees); every server gets 160 quick / 600 thorough (dir and symlink-to-dir; half of it file and chain-to-dir; a quarter the rest) traversal targets whose LAST SEGMENT is such a name: the climb written in one of the nine spellings of the other classes (%2e%2e in every case mix most often, plain, double-encoded, %2f, backslash, ..;, overlong, trailing dots, empty segments), from the root, an in-tree directory, a shell-named or a missing prefix, exactly as many levels as the canary needs (one more or less in a quarter of them), also up two and down again by the case directory's name and by the absolute path; method GET, HEAD, POST, PUT/DELETE/PATCH/OPTIONS/TRACE, a made-up token or CONNECT with a path (which the router neither cleans nor redirects); one in eight in absolute-form, one in twelve with a query, a sample through curl --path-as-is. Counted: targets that the router passes on as written and that, decoded once and joined lexically to the configured path, name an existing canary - by root kind, by name, by way (encoded dots, other method, CONNECT, absolute-form). Judged by the same oracle as every other target (no canary token, a 2xx body exactly an in-tree file); for an in-tree .../index.html both net/http's 301 to ./ and the file itself are inside the statement (recorded, not demanded). On top, every server gets the shell endpoint x method matrix: paths /c, /%63, /io, /io/, /io/x, /i%6f, /i/<id> and /o/<id> for every id with files plus one without (ids percent-encoded in three styles) x methods GET HEAD POST PUT DELETE PATCH OPTIONS TRACE, two made-up tokens from a list (get, PROPFIND, G%54, ...) and one random token x request body none / Content-Length 0 / a body that ends / an open chunked body (all cells on the directory and file servers, one in three elsewhere). Oracle: no response at any hop contains a canary token; a 2xx body when a directory is named (directly or through links) is exactly an in-tree file (or the announced range of one) or a listing whose entries are exactly those of an in-tree directory; when a regular file is named (directly or through links) exactly that file comes back for non-shell targets (or an HTTP-layer rejection for targets that are not clean); unset answers 404; a dangling link yields no file content at all; for every request whose path names /c, /i/{id}, /o/{id}, /io or /io/..., whatever the method: the response carries no file token and the marker window of the request holds no 'File requested' notice (the file handler did not take it), /c returns the script, and the project's own uses (GET /i/{id}; POST or PUT with a body on /o/{id}; POST or PUT with an open body on /io) attach a stream (attach notice; delivered input line counted) - what other methods do on the streaming endpoints is recorded, not demanded; every request that reaches the file handler has a 'File requested' notice inside its marker window, also under link and dangling roots. Two more engines run beside the request-line servers. GONE (6 servers quick / 24 thorough, one per way of naming a directory or a file, operator queue depth 1, 4, 64 or 1024): waves of 10-24 parallel clients that dial first and then, together, write a file request (a clean target carrying a nonce) and leave at once - TLS half-close (close_notify + FIN) and reading the answer, FIN without close_notify, a complete keep-alive exchange followed by a second request and half-close, close_notify + close without reading, RST (SO_LINGER 0), and ordinary clients as control; every second wave with the operator's terminal stalled (hk.StallOperator: the consumer of the operator channel takes nothing, the queue is filled to the brim with filler lines before the requests are written, the clients are gone before it takes lines again). Oracle: every request for which the file handler's own log record ('File requested' with that request URI; it is written after the operator line was queued) is observed has its 'File requested' operator line before the marker sent afterwards. LIVE (6 / 24 servers: a regular file twice, a symbolic link and a chain of links to it, a directory, a link to a directory): the served file is 64 KiB - 4 MiB (log-uniform, unaligned) of 32-byte lines that spell a per-server token, the version and their own offset. Phase 1: 6-12 clients at once (half of them begin with the whole file at the same instant), each 3 / 6 requests over fresh or kept connections: whole file under varied clean non-shell paths, single ranges (1 byte to the whole file, across the 32 KiB copy-chunk border, open-ended, suffix), two-part ranges, HEAD. Phase 2: 5 / 12 times the file is replaced with nothing in flight - temporary file renamed over it, truncated and rewritten in place, deleted and recreated, for link roots the link switched to a new file / a new directory holding it (every method on every server) - and after each replacement a whole-file request on a fresh connection, a request on a connection kept across all replacements and 1-3 requests at once. Phase 3: 4-6 clients keep requesting while the file is replaced 4 / 10 times atomically (rename over it, link switched); clients and replacer are paced by request counts (two rounds granted per replacement, which is made when one has completed). Oracle: with [lo, hi] = [newest replacement complete before the request was written, newest replacement begun after its answer was read], a 200 body is exactly one of the versions lo..hi (outside phase 3 lo = hi: the current file), a 206 body exactly the announced range of one of them, a HEAD answer announces the length of one of them, 416 only for a range that starts past the end of one of them, and in single-file mode nothing else is an answer; in directory mode a 2xx body that is not (a range of) such a version is content that is no file of the tree. A case = (tree, root kind, request); distinct = distinct (root kind, tree, request line, Range / body shape); clean-missing targets are counted as trivial"
 	r.Assumptions = []string{
 		"symlinks inside the tree are not generated (following them is http.Dir behaviour the statement does not speak about); symbolic links are used only to name the configured root itself, where 'naming a directory' / 'naming a single file' is read as what the name resolves to",
 		"for a dangling link the statement fixes no status: only 'no file content', 'shell endpoints untouched' and 'file requests reported' are demanded",
 		"which raw targets are 'clean' (reach the catch-all unchanged) and which name a shell route is decided by a small reference written from net/http's documented routing (cleaned escaped path, per-segment unescaping)",
 		"canary name tokens are never spelled in a request, so their appearance in a response is a leak, not an echo",
 		"matrix cells on /i/{id} carry no request body: the input endpoint never reads one, and the server does not notice a client leaving behind an unread body, which would keep the single shell slot busy for the following cells",
-		"CONNECT is left out of the matrix (net/http routes it without cleaning and clients cannot send it to a path)",
+		"CONNECT is left out of the matrix (net/http routes it without cleaning and clients cannot send it to a path); CONNECT with a path is sent only by the special-name targets, the reference reads it as the router does (matched on the path as written), and a hop whose path as written names a shell endpoint is made with GET instead",
+		"special-name canaries: the ones above all case directories are shared by the trees (every tree scans for their tokens); a place that is already taken by something else is skipped; the count of targets that name a canary lexically is a measure of the workload only (no verdict depends on it)",
 		"'every file request is reported': a file request is one that reached the file handler, witnessed by the handler's own log record; requests of clients that reset the connection may never be read by the server and are then not counted (none is demanded). The pause before the stalled terminal takes lines again only shapes the schedule; no verdict depends on it",
 		"'exactly that file is returned' under change: a request that overlaps no replacement must get the file as it is; one that overlaps an atomic replacement (rename, link switch) must get one of the versions that bore the name during the request. Replacements that are not atomic (rewrite in place, delete and recreate) are made only while no request is in flight, because no server that reads the file while it is being rewritten can return a consistent copy",
 		"in directory mode the statement is about confinement, not about availability: only 2xx bodies are judged there (they must be exactly an in-tree file or an announced range of one); other statuses are recorded",
@@ -1978,6 +2023,7 @@ func Run(r *mon.Run) {
 		r.Count("tree_files", int64(len(trees[i].fileL)))
 		r.Count("tree_dirs", int64(len(trees[i].dirL)))
 		r.Count("canaries", int64(len(trees[i].canaryL)))
+		r.Count("special_name_canaries", int64(trees[i].nSpecial))
 		if trees[i].ioDir {
 			r.Count("trees_with_io_as_directory", 1)
 		}
@@ -2022,6 +2068,7 @@ func Run(r *mon.Run) {
 		return quick
 	}
 	liveGoneFloors(r, nLive, nGone)
+	specialFloors(r, nt)
 	ntarg := 0
 	for _, k := range rootKinds {
 		ntarg += nt * (per / k.div)
